@@ -41,7 +41,24 @@ type HistInput struct {
 	// CutAt k+1: the connection of the first Stream call is lost in front of
 	// packet k of the dump; the same Streamer then streams a second time.
 	CutAt int `json:"cut_at,omitempty"`
+	// EmptyStart: the stream is started with an empty file name (the master's
+	// first binlog); the labels keep the empty name until the first rotation.
+	EmptyStart bool `json:"empty_start,omitempty"`
+	// UnkSQL: the text of the unclassified statement inserted by Insert{Unit: unkS}.
+	UnkSQL string `json:"unk_sql,omitempty"`
 }
+
+// UnclassifiedStatements are statements a server logs as query events whose
+// first word the library does not classify: they are never delivered and
+// never alter the grouping, wherever they stand.
+var UnclassifiedStatements = []string{"REPLACE INTO item VALUES (1,'x',1)", "replace into item select * from t", "CALL refresh_totals(7)", "DO RELEASE_LOCK('x')",
+	"LOAD DATA INFILE '/tmp/x' INTO TABLE item", "GRANT SELECT ON shop.* TO 'u'@'%'", "REVOKE ALL ON *.* FROM 'u'@'%'", "FLUSH PRIVILEGES", "ANALYZE TABLE item",
+	"OPTIMIZE TABLE item", "REPAIR TABLE item", "SAVEPOINT `sp1`", "RELEASE SAVEPOINT `sp1`", "ROLLBACK_TO sp1", "XA START X'31',X'',1", "XA END X'31',X'',1",
+	"XA PREPARE X'31',X'',1", "XA COMMIT X'31',X'',1", "LOCK TABLES item WRITE", "UNLOCK TABLES", "USE shop", "HANDLER item OPEN", "INSTALL PLUGIN p SONAME 'p.so'",
+	"PURGE BINARY LOGS TO 'mysql-bin.000010'", "RESET MASTER", "KILL 7", "SELECT GET_LOCK('x',1)", "WITH c AS (SELECT 1) SELECT * FROM c", "(SELECT 1)",
+	"/* app:web */ INSERT INTO item VALUES (2,'y',2)", "-- comment\nUPDATE item SET qty=1", "# comment\nDELETE FROM item", "START TRANSACTION", "START TRANSACTION READ ONLY",
+	"COMMITTED", "BEGINNING", "INSERTED", "SETUP", "DROPPED", "ALTERNATE", "CREATED", "UPDATES", "DELETES", "TRUNCATED", "RENAMED", "ROLLBACKS", "B", "",
+	" ", ";", "\tSAVEPOINT x", "\nSAVEPOINT x"}
 
 // Insert places a noise unit before event Slot of the base history's first file.
 type Insert struct {
@@ -50,7 +67,7 @@ type Insert struct {
 }
 
 func (in HistInput) build() *ref.History {
-	g := &Gen{Cfg: in.Cfg, Begin: in.Begin, Commit: in.Commit, Rollback: in.Rollback, FileBase: in.Bases, Names: in.Names}
+	g := &Gen{Cfg: in.Cfg, Begin: in.Begin, Commit: in.Commit, Rollback: in.Rollback, FileBase: in.Bases, Names: in.Names, unkSQL: in.UnkSQL}
 	if in.Pattern != nil {
 		g.pattern = in.Pattern
 	}
@@ -125,6 +142,20 @@ func checkGrouping(in HistInput) (string, int, int) {
 		}
 	}
 	return "", len(served), len(exp)
+}
+
+// UnknownStatementInputs places every unclassified statement before every event
+// of the history [txX, txC] (inside and between the transactions).
+func UnknownStatementInputs(cfg ref.Cfg) []HistInput {
+	base := []string{UTxXID, UTxCommit}
+	nslots := len((&Gen{Cfg: cfg}).Build(base).Files[0].Events)
+	var out []HistInput
+	for _, sql := range UnclassifiedStatements {
+		for slot := 0; slot <= nslots; slot++ {
+			out = append(out, HistInput{Units: base, Cfg: cfg, Insert: &Insert{Unit: UUnknownSt, Slot: slot}, UnkSQL: sql, LockStep: true})
+		}
+	}
+	return out
 }
 
 // checkRejectRetry: the handler rejects delivery k of the first Stream call; a
@@ -207,6 +238,10 @@ func ReplayHistory(kind string, input json.RawMessage) (bool, string) { return r
 
 func replayHist(kind string, input json.RawMessage) (bool, string) {
 	switch kind {
+	case "schema":
+		return ReplaySchema(input)
+	case "unktype":
+		return ReplayUnknownType(input)
 	case "restart":
 		return ReplayRestart(input)
 	case "sharedtext":
@@ -404,6 +439,14 @@ func runC02(r *chk.Run) {
 		for _, lock := range []bool{true, false} {
 			hr.add(HistInput{Units: []string{UTxXID, UAutoSplit}, Cfg: cfg, LockStep: lock})
 			hr.add(HistInput{Units: []string{UAutoSplit, UTxCommit}, Cfg: cfg, LockStep: lock})
+		}
+	}
+	// every uninterpreted event type, inside and between transactions
+	RunUnknownTypes(r)
+	// every unclassified statement at every slot of a two-transaction history
+	for _, cfg := range []ref.Cfg{cfgA, cfgB} {
+		for _, in := range UnknownStatementInputs(cfg) {
+			hr.add(in)
 		}
 	}
 	r.Sample("casing", map[string]interface{}{"units": []string{UTxRollback, UTxXID, UTxRollback, UAutoRows}, "rollback_spelling": "rOLLbacK"})
